@@ -37,6 +37,10 @@ def oracle(ctx, case, line):
         if v.startswith("C:") or v == "?":
             opc = hx[:2]
             ctx.report(["consumer_crash", k, v], f"{k} fails with {v} on bytes {hx} (memory continues with {filler})", {"case": decgen.fmt(case), "answer": line})
+    eh = f.get("emuh", ["same"])[0]
+    if eh != "same":
+        ctx.report(["emulator_fetch_depends_on_earlier_decodes"], f"a long-lived Emulator fetches {eh} at {addr} where a fresh one fetches {f.get('emu', ['?'])[0]} (bytes {hx})",
+                   {"case": decgen.fmt(case), "answer": line})
     if d[0].startswith("EXC") or d[0] in ("ASSERT", "NOTIMPL"):
         ctx.report(["decode_raises", d[0]], f"decode raises {d[0]} on bytes {hx}", {"case": decgen.fmt(case), "answer": line})
     if d[0] == "OK":
@@ -89,8 +93,10 @@ def run(ctx):
     if okm:
         streams["model"] = ("model", "dec")
     outs = corr.run_streams(ctx, lines, streams)
+    raw = outs["py"]
+    outs["py"] = [decgen.strip_history(l) for l in raw]       # the emuh= field is the harness's own history probe, not part of the model's answer
     corr.compare(ctx, "decode", lines, outs, [("py", "model")])
-    py = outs["py"]
+    py = raw
     first = {}
     for pos, i in enumerate(order):
         ctx.evaluations += 1
@@ -110,6 +116,8 @@ def run(ctx):
     sib = sibling_cases(rng, cases, base_out, 40000 if ctx.tier == "thorough" else 6000)
     slines = [decgen.fmt(s[0]) for s in sib]
     souts = corr.run_streams(ctx, slines, streams)
+    sraw = souts["py"]
+    souts["py"] = [decgen.strip_history(l) for l in sraw]
     corr.compare(ctx, "decode-siblings", slines, souts, [("py", "model")])
     for (scase, i, n), ans in zip(sib, souts["py"]):
         ctx.evaluations += 1
